@@ -29,7 +29,7 @@
 From Coq Require Import List NArith ZArith Bool.
 From ApiFu Require Import Base.Sexp Transport.EnvelopeModel Transport.EnvelopeSpec Transport.EnvelopeProofs.
 From ApiFu Require Import Transport.JsonText Transport.JsonTextProofs Transport.EnvelopeCompose.
-From ApiFu Require Import Transport.WireModel Transport.WireProofs.
+From ApiFu Require Import Transport.WireModel Transport.WireProofs Transport.InitModel Transport.InitProofs.
 From ApiFu Require Api.PersistedQueryModel.
 Import ListNotations.
 
@@ -201,7 +201,9 @@ End C17.
     [numprint] (the client's formatting of a float64) and [numval] (strconv.ParseFloat), tied by the
     four hypotheses below.  [tclean fl numclean j]: the numbers of [j] are [numclean], and (for
     encoding/json, which rewrites bytes that are not UTF-8) its strings and member names are valid
-    UTF-8 ([utf8_ok]: exactly the sequences utf8.DecodeRune accepts).  Since the third repair every
+    UTF-8 ([utf8_ok]: exactly the sequences utf8.DecodeRune accepts).  [parse_json] is [parse_text]
+    within the libraries' nesting limit (more than 10000 open arrays / objects: refused);
+    [text_clean numprint numclean j] = [tclean StdJson numclean j] and the text of [j] stays within the limit.  Since the third repair every
     transport reads JSON with encoding/json. *)
 Section C17Bytes.
   Variable numval : bytes -> option N.
@@ -220,10 +222,10 @@ Section C17Bytes.
   (** envelope_roundtrip over bytes, all six shapes: the operation is read back from the bytes of its
       canonical envelope *)
   Theorem C17_envelope_roundtrip_bytes : forall t id o,
-    wf_op o = true -> carries t o = true -> (forall j, In j (sent_json t o) -> text_clean numclean j) ->
-    decode fixed (parse_text StdJson numval) (parse_text StdJson numval) (encode (print numprint) t id o) = Some (o, None).
+    wf_op o = true -> carries t o = true -> (forall j, In j (sent_json t o) -> text_clean numprint numclean j) ->
+    decode fixed (parse_json StdJson numval) (parse_json StdJson numval) (encode (print numprint) t id o) = Some (o, None).
   Proof.
-    exact (C17_envelope_roundtrip (print numprint) (parse_text StdJson numval) (parse_text StdJson numval) (text_clean numclean)
+    exact (C17_envelope_roundtrip (print numprint) (parse_json StdJson numval) (parse_json StdJson numval) (text_clean numprint numclean)
              (std_faithful_bytes numval numprint numclean num_nonempty num_chars num_grammar num_back)
              (std_faithful_bytes numval numprint numclean num_nonempty num_chars num_grammar num_back)
              (render_nonempty_bytes_clean numprint numclean num_nonempty num_chars)).
@@ -242,17 +244,17 @@ Section C17Bytes.
            (sha : bytes -> bytes) (not_found : Resp) (st : PersistedQueryModel.storage),
     let pq := pq_of Resp (event Features Ctx Doc) sha not_found st in
     let resp := respond no_features parse_validate is_subscription execute run_subscription pq marshal fixed
-                        (parse_text StdJson numval) (parse_text StdJson numval) (print numprint) in
+                        (parse_json StdJson numval) (parse_json StdJson numval) (print numprint) in
     forall t1 t2 (a : api Schema Features Ctx) c id1 id2 o,
     wf_op o = true -> carries t1 o = true -> carries t2 o = true ->
-    (forall j, In j (sent_json t1 o) \/ In j (sent_json t2 o) -> text_clean numclean j) ->
+    (forall j, In j (sent_json t1 o) \/ In j (sent_json t2 o) -> text_clean numprint numclean j) ->
     (forall d cost, parse_validate (a_schema a) (features_of no_features a c) (a_default_cost a) (o_query o) (o_opname o) (o_vars o) = PVOk d cost ->
                     is_subscription d (o_opname o) = false) ->
     (forall r tr, validate_execute parse_validate execute a (features_of no_features a c) (request_of o) = (r, tr) -> marshal r <> None) ->
     resp t1 a c id1 o = resp t2 a c id2 o /\ exists body, fst (resp t1 a c id1 o) = Some [body].
   Proof.
     exact (fun Schema Features Ctx Doc Resp no_features parse_validate is_subscription execute run_subscription marshal sha not_found st =>
-             C17_transport_same_response (print numprint) (parse_text StdJson numval) (parse_text StdJson numval) (text_clean numclean)
+             C17_transport_same_response (print numprint) (parse_json StdJson numval) (parse_json StdJson numval) (text_clean numprint numclean)
                (std_faithful_bytes numval numprint numclean num_nonempty num_chars num_grammar num_back)
                (std_faithful_bytes numval numprint numclean num_nonempty num_chars num_grammar num_back)
                (render_nonempty_bytes_clean numprint numclean num_nonempty num_chars)
@@ -281,12 +283,12 @@ Section C17Bytes.
            (sha : bytes -> bytes) (not_found : Resp) (st : PersistedQueryModel.storage),
     let pq := pq_of Resp (event Features Ctx Doc) sha not_found st in
     let resp := respond no_features parse_validate is_subscription execute run_subscription pq marshal fixed
-                        (parse_text StdJson numval) (parse_text StdJson numval) (print numprint) in
+                        (parse_json StdJson numval) (parse_json StdJson numval) (print numprint) in
     let wire := wire_respond no_features parse_validate is_subscription execute run_subscription pq marshal fixed
-                        (parse_text StdJson numval) (parse_text StdJson numval) (print numprint) in
+                        (parse_json StdJson numval) (parse_json StdJson numval) (print numprint) in
     forall t1 t2 (a : api Schema Features Ctx) c id1 id2 o,
     wf_op o = true -> carries t1 o = true -> carries t2 o = true ->
-    (forall j, In j (sent_json t1 o) \/ In j (sent_json t2 o) -> text_clean numclean j) ->
+    (forall j, In j (sent_json t1 o) \/ In j (sent_json t2 o) -> text_clean numprint numclean j) ->
     (forall d cost, parse_validate (a_schema a) (features_of no_features a c) (a_default_cost a) (o_query o) (o_opname o) (o_vars o) = PVOk d cost ->
                     is_subscription d (o_opname o) = false) ->
     (forall r tr, validate_execute parse_validate execute a (features_of no_features a c) (request_of o) = (r, tr) -> marshal r <> None) ->
@@ -295,7 +297,7 @@ Section C17Bytes.
       snd (resp t1 a c id1 o) = snd (resp t2 a c id2 o).
   Proof.
     exact (fun Schema Features Ctx Doc Resp no_features parse_validate is_subscription execute run_subscription marshal sha not_found st =>
-             transport_same_wire_answer (print numprint) (parse_text StdJson numval) (parse_text StdJson numval) (text_clean numclean)
+             transport_same_wire_answer (print numprint) (parse_json StdJson numval) (parse_json StdJson numval) (text_clean numprint numclean)
                (std_faithful_bytes numval numprint numclean num_nonempty num_chars num_grammar num_back)
                (std_faithful_bytes numval numprint numclean num_nonempty num_chars num_grammar num_back)
                (render_nonempty_bytes_clean numprint numclean num_nonempty num_chars)
@@ -304,6 +306,38 @@ Section C17Bytes.
                (pq_of_no_ext Resp (event Features Ctx Doc) sha not_found st)).
   Qed.
 End C17Bytes.
+
+(** ** feature plumbing on a socket: connection_init (Transport/InitModel.v, graphqlWSHandler.HandleInit).
+    A connection starts with the context [c0] of the upgrade request and the nil feature set; every
+    connection_init message (also a repeated one) first lets Config.HandleGraphQLWSInit replace the
+    context (an error refuses the init and closes the connection), then computes the feature set from
+    the NEW context.  Hence the effective feature set of a socket operation is
+    Config.Features(the context returned by the latest accepted init's hook) — and the transport
+    theorems above, which describe a socket session by one context [c] ([handle_init a c]), apply with
+    [c] = that context: a principal installed by the init hook gets the same answers as the same
+    principal installed by HTTP middleware whenever Config.Features maps the two contexts to the same
+    set ([C17_transport_same_response] takes one [c] for both). *)
+Theorem C17_ws_effective_features :
+  forall (Schema Features Ctx : Type) (no_features : Features) (hook : option (Ctx -> option bytes -> option Ctx))
+         (a : api Schema Features Ctx) c0 inits st',
+    inits <> [] -> run_inits hook false a (c0, no_features) inits = Some st' ->
+    ctx_after hook c0 inits = Some (fst st') /\ snd st' = features_of no_features a (fst st').
+Proof. exact ws_effective_features. Qed.
+
+Theorem C17_ws_session_is_handle_init :
+  forall (Schema Features Ctx : Type) (no_features : Features) (hook : option (Ctx -> option bytes -> option Ctx))
+         (Doc : Type) (a : api Schema Features Ctx) c0 inits st',
+    inits <> [] -> run_inits hook false a (c0, no_features) inits = Some st' ->
+    snd st' = fst (handle_init (Doc := Doc) no_features a (fst st')).
+Proof. exact ws_session_is_handle_init. Qed.
+
+(** with the two steps of HandleInit swapped (seed C17-5) the feature set belongs to the context
+    before the hook ran *)
+Theorem C17_init_order_refuted_when_swapped :
+  exists (a : api unit bool bool) (hook : option (bool -> option bytes -> option bool)) c0 inits st',
+    inits <> [] /\ run_inits hook true a (c0, false) inits = Some st' /\
+    snd st' <> features_of false a (fst st').
+Proof. exact init_order_refuted_when_swapped. Qed.
 
 (** the framing functions are injective on response bytes: answers that are equal on the wire carry
     the same response(s); so "same wire answer modulo framing" determines the response *)
@@ -393,6 +427,9 @@ Print Assumptions C17_json_text_roundtrip.
 Print Assumptions C17_envelope_roundtrip_bytes.
 Print Assumptions C17_transport_same_response_bytes.
 Print Assumptions C17_transport_same_wire_answer.
+Print Assumptions C17_ws_effective_features.
+Print Assumptions C17_ws_session_is_handle_init.
+Print Assumptions C17_init_order_refuted_when_swapped.
 Print Assumptions C17_framing_injective.
 Print Assumptions C17_wire_is_framing_of_response.
 Print Assumptions C17_malformed_http_wire.
